@@ -1,32 +1,50 @@
 (* Ownership model of the parser's reusable buffers (C08: "a sequence already delivered is
    never modified by later parsing until the consumer hands it back").  Buffers are abstract
-   ids; who may hold an id: the parser (its fields), the consumer (delivered, not yet given
-   back), a sync.Pool.  The per-function action lists are translated from ansi/parser.go
-   (gen/GenOwn.v) in two renderings: [own_all] (one merged list per function, conditions
-   ignored) and [own_paths] (one list per control-flow path from entry to a return, so that an
-   early return between the emit and the re-pointing of the field is a call of its own).
-   A call event names the function and either the merged list or one of its paths.
-   Definitions only. *)
+   array ids; who may hold a VIEW of an array: the parser (its fields, the pooled locals of the
+   function that is running), a sequence under construction, the consumer (delivered, not yet
+   given back), a sync.Pool.  The three holders' lists are MULTISETS of views: the same array
+   can be referenced twice (two slices of one array), the consumer hands views back one at a
+   time, and sync.Pool.Get takes one view out of the pool - so two views of one array that reach
+   the pool are later handed to two different owners (the hazard of carving several buffers out
+   of one array).  The per-function action lists are translated from ansi/parser.go
+   (gen/GenOwn.v) in three renderings: [own_all] (one merged list per function, conditions
+   ignored), [own_paths] (one list per control-flow path from entry to a return, loops whose
+   iterations perform ownership actions executed zero times) and [own_lpaths] (the same paths
+   with those loops as segments: any number of iterations, each along any path of the body).
+   A call event names the function and the merged list, one of its paths, or one of its looped
+   paths together with the iterations taken.  Definitions only. *)
 From Vx Require Import base.Prelude model.ParserOwnTypes gen.GenOwn.
 
 Definition bkind_eqb (a b : bkind) : bool :=
-  match a, b with KInter, KInter | KOsc, KOsc | KApc, KApc | KDcs, KDcs => true | _, _ => false end.
+  match a, b with
+  | KInter, KInter | KOsc, KOsc | KApc, KApc | KDcs, KDcs => true
+  | KLoc n, KLoc m => Nat.eqb n m
+  | _, _ => false
+  end.
+Definition is_loc (k : bkind) : bool := match k with KLoc _ => true | _ => false end.
 
 Record ost := {
-  cur : bkind -> Z;          (* the buffer each parser field points to *)
-  outgoing : list Z;         (* referenced by a sequence under construction *)
-  consumer : list Z;         (* delivered and not handed back *)
-  pool : list Z;             (* handed back (Finish -> sync.Pool.Put) *)
+  cur : bkind -> Z;          (* the array each parser field / pooled local points to *)
+  outgoing : list Z;         (* views referenced by a sequence under construction *)
+  consumer : list Z;         (* views delivered and not handed back *)
+  pool : list Z;             (* views handed back (Finish -> sync.Pool.Put) *)
   next_fresh : Z             (* ids >= next_fresh were never allocated *)
 }.
 
 Definition mem (x : Z) (l : list Z) : bool := existsb (Z.eqb x) l.
 Definition remove_id (x : Z) (l : list Z) : list Z := filter (fun y => negb (y =? x)) l.
+(* one view leaves the holder *)
+Fixpoint remove_one (x : Z) (l : list Z) : list Z :=
+  match l with
+  | [] => []
+  | y :: t => if y =? x then t else y :: remove_one x t
+  end.
 Definition set_cur (s : ost) (k : bkind) (v : Z) : bkind -> Z :=
   fun k' => if bkind_eqb k' k then v else cur s k'.
 
 (* one translated action.  [choice]: what sync.Pool.Get returns, chosen by the environment:
-   Some id (must be in the pool) or None (the pool's New function: a fresh buffer) *)
+   Some id (must be in the pool) or None (the pool's New function: a fresh buffer).
+   [OReplace k Reslice] keeps the array: the field / local is a new view of the SAME array. *)
 Definition oact_step (s : ost) (a : oact) (choice : option Z) : ost :=
   match a with
   | OAlias k => {| cur := cur s; outgoing := cur s k :: outgoing s; consumer := consumer s; pool := pool s; next_fresh := next_fresh s |}
@@ -37,7 +55,7 @@ Definition oact_step (s : ost) (a : oact) (choice : option Z) : ost :=
   | OReplace k PoolGet =>
       match choice with
       | Some id => if mem id (pool s)
-                   then {| cur := set_cur s k id; outgoing := outgoing s; consumer := consumer s; pool := remove_id id (pool s); next_fresh := next_fresh s |}
+                   then {| cur := set_cur s k id; outgoing := outgoing s; consumer := consumer s; pool := remove_one id (pool s); next_fresh := next_fresh s |}
                    else {| cur := set_cur s k (next_fresh s); outgoing := outgoing s; consumer := consumer s; pool := pool s; next_fresh := next_fresh s + 1 |}
       | None => {| cur := set_cur s k (next_fresh s); outgoing := outgoing s; consumer := consumer s; pool := pool s; next_fresh := next_fresh s + 1 |}
       end
@@ -62,19 +80,59 @@ Fixpoint run_fn (s : ost) (acts : list oact) (choices : list (option Z)) : ost *
       (s', ok && ok', rest')
   end.
 
+(* pooled locals die when the function returns: every local the body mentions is re-pointed to
+   a never-used id (the next call starts with locals that reference nothing) *)
+Definition act_kind (a : oact) : option bkind :=
+  match a with OAlias k | OReplace k _ | OWrite k => Some k | OEmit => None end.
+Fixpoint locals_of (acts : list oact) : list bkind :=
+  match acts with
+  | [] => []
+  | a :: t => match act_kind a with
+              | Some k => if is_loc k then k :: locals_of t else locals_of t
+              | None => locals_of t
+              end
+  end.
+Definition resets (ks : list bkind) : list oact := map (fun k => OReplace k Fresh) ks.
+Definition call_acts (acts : list oact) : list oact := acts ++ resets (locals_of acts).
+
+(* looped paths: [its] gives, for each loop segment in order, the bodies its iterations run
+   (an index outside the list is an iteration that performs no action) *)
+Fixpoint unroll (lp : list oseg) (its : list (list nat)) : list oact :=
+  match lp with
+  | [] => []
+  | SActs l :: t => l ++ unroll t its
+  | SLoop bodies :: t =>
+      match its with
+      | [] => unroll t []
+      | it :: its' => concat (map (fun i => nth i bodies []) it) ++ unroll t its'
+      end
+  end.
+Fixpoint lp_acts (lp : list oseg) : list oact :=
+  match lp with
+  | [] => []
+  | SActs l :: t => l ++ lp_acts t
+  | SLoop bodies :: t => concat bodies ++ lp_acts t
+  end.
+Definition call_lacts (lp : list oseg) (its : list (list nat)) : list oact :=
+  unroll lp its ++ resets (locals_of (lp_acts lp)).
+
 (* environment events between function calls *)
 Inductive oevent :=
   | ECall (n : nat) (choices : list (option Z))   (* the n-th function of own_all runs (merged list) *)
   | ECallPath (n p : nat) (choices : list (option Z))   (* the n-th function runs along its p-th path *)
-  | EFinish (id : Z).                             (* the consumer hands a buffer back *)
+  | ECallLoop (n p : nat) (its : list (list nat)) (choices : list (option Z))
+      (* the n-th function runs along its p-th looped path, its loops iterating as [its] says *)
+  | EFinish (id : Z).                             (* the consumer hands ONE view back *)
 
 Definition ostep (s : ost) (e : oevent) : ost * bool :=
   match e with
-  | ECall n choices => let '(s', ok, _) := run_fn s (nth n own_all []) choices in (s', ok)
-  | ECallPath n p choices => let '(s', ok, _) := run_fn s (nth p (nth n own_paths []) []) choices in (s', ok)
+  | ECall n choices => let '(s', ok, _) := run_fn s (call_acts (nth n own_all [])) choices in (s', ok)
+  | ECallPath n p choices => let '(s', ok, _) := run_fn s (call_acts (nth p (nth n own_paths []) [])) choices in (s', ok)
+  | ECallLoop n p its choices =>
+      let '(s', ok, _) := run_fn s (call_lacts (nth p (nth n own_lpaths []) []) its) choices in (s', ok)
   | EFinish id =>
       if mem id (consumer s)
-      then ({| cur := cur s; outgoing := outgoing s; consumer := remove_id id (consumer s); pool := id :: pool s; next_fresh := next_fresh s |}, true)
+      then ({| cur := cur s; outgoing := outgoing s; consumer := remove_one id (consumer s); pool := id :: pool s; next_fresh := next_fresh s |}, true)
       else (s, true)
   end.
 
@@ -85,28 +143,70 @@ Fixpoint orun (s : ost) (es : list oevent) : bool :=
   end.
 
 Definition oinit : ost :=
-  {| cur := fun k => match k with KInter => 0 | KOsc => 1 | KApc => 2 | KDcs => 3 end;
+  {| cur := fun k => match k with KInter => 0 | KOsc => 1 | KApc => 2 | KDcs => 3 | KLoc n => - Z.of_nat n - 1 end;
      outgoing := []; consumer := []; pool := []; next_fresh := 4 |}.
 
-(* the static discipline each translated function must follow: a buffer that was aliased into
-   an emitted sequence is re-pointed (fresh or from the pool) before the function returns, and
-   nothing is left half-aliased *)
+(* the static discipline each translated function must follow: a buffer that was attached to
+   an emitted sequence is re-pointed (fresh or from the pool) before it is written again and
+   before the function returns, NO BUFFER IS ATTACHED TWICE (a reslice keeps the array: attaching
+   the new view of an array that is already attached hands out one array as two buffers), and
+   nothing is left half-aliased.  [aliased]: attached to the sequence under construction;
+   [given]: attached to a sequence that was emitted. *)
 Definition kmem (k : bkind) (l : list bkind) : bool := existsb (bkind_eqb k) l.
 Definition kdel (k : bkind) (l : list bkind) : list bkind := filter (fun k' => negb (bkind_eqb k' k)) l.
 
-Fixpoint handoff_scan (acts : list oact) (aliased given : list bkind) : bool :=
-  match acts with
-  | [] => match aliased, given with [], [] => true | _, _ => false end
-  | OAlias k :: t => negb (kmem k given) && handoff_scan t (k :: aliased) given
-  | OEmit :: t => handoff_scan t [] (aliased ++ given)
-  | OReplace k Reslice :: t => handoff_scan t aliased given
-  | OReplace k _ :: t => handoff_scan t (kdel k aliased) (kdel k given)
-  | OWrite k :: t => negb (kmem k given) && handoff_scan t aliased given
+Definition scan_step (a : oact) (aliased given : list bkind) : option (list bkind * list bkind) :=
+  match a with
+  | OAlias k => if negb (kmem k given) && negb (kmem k aliased) then Some (k :: aliased, given) else None
+  | OEmit => Some ([], aliased ++ given)
+  | OReplace k Reslice => Some (aliased, given)
+  | OReplace k _ => Some (kdel k aliased, kdel k given)
+  | OWrite k => if negb (kmem k given) then Some (aliased, given) else None
   end.
-Definition handoff_ok (acts : list oact) : bool := handoff_scan acts [] [].
+Fixpoint scan_acts (acts : list oact) (aliased given : list bkind) : option (list bkind * list bkind) :=
+  match acts with
+  | [] => Some (aliased, given)
+  | a :: t => match scan_step a aliased given with
+              | Some (al, gi) => scan_acts t al gi
+              | None => None
+              end
+  end.
+Definition handoff_scan (acts : list oact) (aliased given : list bkind) : bool :=
+  match scan_acts acts aliased given with Some ([], []) => true | _ => false end.
+(* a call: the body, then its locals die *)
+Definition handoff_ok (acts : list oact) : bool := handoff_scan (call_acts acts) [] [].
 
 (* every path of every function follows the discipline *)
 Definition paths_ok (fs : list (list (list oact))) : bool := forallb (forallb handoff_ok) fs.
+
+(* looped paths: every body of a loop must bring the scanner back to the state at the loop's
+   head (a loop invariant), whichever body an iteration runs *)
+Fixpoint klist_eqb (a b : list bkind) : bool :=
+  match a, b with
+  | [], [] => true
+  | x :: a', y :: b' => bkind_eqb x y && klist_eqb a' b'
+  | _, _ => false
+  end.
+Definition body_keeps (aliased given : list bkind) (b : list oact) : bool :=
+  match scan_acts b aliased given with
+  | Some (al, gi) => klist_eqb al aliased && klist_eqb gi given
+  | None => false
+  end.
+Fixpoint lscan (lp : list oseg) (aliased given : list bkind) : option (list bkind * list bkind) :=
+  match lp with
+  | [] => Some (aliased, given)
+  | SActs l :: t => match scan_acts l aliased given with
+                    | Some (al, gi) => lscan t al gi
+                    | None => None
+                    end
+  | SLoop bodies :: t => if forallb (body_keeps aliased given) bodies then lscan t aliased given else None
+  end.
+Definition lpath_ok (lp : list oseg) : bool :=
+  match lscan lp [] [] with
+  | Some (al, gi) => handoff_scan (resets (locals_of (lp_acts lp))) al gi
+  | None => false
+  end.
+Definition lpaths_ok (fs : list (list (list oseg))) : bool := forallb (forallb lpath_ok) fs.
 
 (* translator consistency: a path is a subsequence of the function's merged list *)
 Definition oact_eqb (a b : oact) : bool :=
@@ -129,4 +229,34 @@ Fixpoint paths_within (ms : list (list oact)) (fs : list (list (list oact))) : b
   | [], [] => true
   | m :: ms', ps :: fs' => negb (match ps with [] => true | _ => false end) && forallb (fun p => subseq_b p m) ps && paths_within ms' fs'
   | _, _ => false
+  end.
+(* ... and the looped rendering is the same set of paths: dropping the loops of own_lpaths
+   gives own_paths, each loop body is a subsequence of the merged list *)
+Fixpoint drop_loops (lp : list oseg) : list oact :=
+  match lp with
+  | [] => []
+  | SActs l :: t => l ++ drop_loops t
+  | SLoop _ :: t => drop_loops t
+  end.
+Fixpoint loop_bodies (lp : list oseg) : list (list oact) :=
+  match lp with
+  | [] => []
+  | SActs _ :: t => loop_bodies t
+  | SLoop bs :: t => bs ++ loop_bodies t
+  end.
+Fixpoint oacts_eqb (a b : list oact) : bool :=
+  match a, b with
+  | [], [] => true
+  | x :: a', y :: b' => oact_eqb x y && oacts_eqb a' b'
+  | _, _ => false
+  end.
+Fixpoint lpaths_within (ms : list (list oact)) (fs : list (list (list oact))) (ls : list (list (list oseg))) : bool :=
+  match ms, fs, ls with
+  | [], [], [] => true
+  | m :: ms', ps :: fs', lps :: ls' =>
+      forallb (fun lp => existsb (fun p => oacts_eqb p (drop_loops lp)) ps
+                         && forallb (fun b => subseq_b b m) (loop_bodies lp)) lps
+      && forallb (fun p => existsb (fun lp => oacts_eqb p (drop_loops lp)) lps) ps
+      && lpaths_within ms' fs' ls'
+  | _, _, _ => false
   end.
